@@ -17,7 +17,8 @@ def encPos (ps : List Nat) : Sx := .list (.atom "pos" :: ps.map sxNat)
 /-- `norm V` → `V`
     `scan (keys (v…)…) LO HI INCLO INCHI` → `(pos p…)`   (index built from the keys in row order)
     `lookup (keys (v…)…) (vals v…)` → `(pos p…)`
-    `dump (keys (v…)…)` → `(idx ((v…) (p…))…)` -/
+    `dump (keys (v…)…)` → `(idx ((v…) (p…))…)`
+    `wherescan (keys (v)…) E` → `(pos p…)` (index on column 0, WHERE E)   `extract E` → `(range LO HI IL IH FULL)` -/
 def handle : List Sx → Sx
   | [.atom "norm", .atom v] =>
     match decValue v with
@@ -34,6 +35,22 @@ def handle : List Sx → Sx
   | [.atom "dump", .list [.atom "keys", ks]] =>
     match decRows ks with
     | some keys => .list (.atom "idx" :: (build keys).map (fun kp => .list [encRow kp.1, .list (kp.2.map sxNat)]))
+    | none => .atom "bad-request"
+  | [.atom "wherescan", .list [.atom "keys", ks], e] =>
+    match decRows ks, decExpr e with
+    | some keys, some ex =>
+      match whereScan keys ex with
+      | .ok ps => encPos ps
+      | .error er => encErr er
+    | _, _ => .atom "bad-request"
+  | [.atom "extract", e] =>
+    match decExpr e with
+    | some ex =>
+      match extractRange 0 ex with
+      | some r => .list [.atom "range", .atom (match r.lo with | some v => encValue v | none => "-"),
+          .atom (match r.hi with | some v => encValue v | none => "-"), sxBool r.incLo, sxBool r.incHi,
+          sxBool (fullySatisfied 0 ex r)]
+      | none => .atom "none"
     | none => .atom "bad-request"
   | _ => .atom "bad-request"
 
